@@ -1521,6 +1521,9 @@ PINNED = [
     ("[1, 1/0] == [2, 2]", "ERR DivByZero", "eq-order", ""),
     ("[] == {}", "OK false", "eq-empty", ""), ("[] == []", "OK true", "eq-empty", ""), ("{} == {}", "OK true", "eq-empty", ""),
     ("[[]] == [[]]", "OK true", "eq-empty", ""), ("[1] == [1, 2]", "OK false", "eq-length", ""), ("[] == [1]", "OK false", "eq-length", ""),
+    ("0x1F == 31 && 0xff == 255 && 0o17 == 15 && 0b101 == 5 && 0x0 == 0", "OK true", "lit:base", "hexadecimal / octal / binary integer literals"),
+    ("0x10 / 0b100 == 4 && 0o10 % 3 == 2", "OK true", "lit:base", ""),
+    ("std.string.to_number \"1e-3\" == 0.001 && std.string.to_number \"0.5e1\" == 5 && std.string.to_number \"007\" == 7", "OK true", "lit:from-string", "number/from_string uses the same reader"),
     ("0.1 + 0.2 == 0.3", "OK true", "num:OAdd", "no floating-point drift"),
     ("1e-3 * 1000 == 1", "OK true", "num:OMul", ""),
     ("(1 < 2) == (2 > 1)", "OK true", "num:OLt", ""),
@@ -1585,6 +1588,33 @@ def run_doc_examples(ck, it):
     ck.coverage["doc_examples_checked"] = len(ex)
 
 
+CONTRACTS = {"Integer": lambda x: x.denominator == 1, "Nat": lambda x: x.denominator == 1 and x >= 0,
+             "PosNat": lambda x: x.denominator == 1 and x > 0, "NonZero": lambda x: x != 0}
+
+
+def run_contracts(ck, it, rng, tier):
+    """std.number.{Integer,Nat,PosNat,NonZero} against their documentation, over the grid (every
+    spelling in thorough tier).  Direct oracle only (python), the contracts are not modelled."""
+    exprs, want = [], []
+    for (p, q) in grid_values():
+        fs = forms(p, q)
+        if tier == "quick":
+            fs = [rng.choice(fs)]
+        for name, ast in fs:
+            for c, pred in CONTRACTS.items():
+                x = Fraction(p, q)
+                exprs.append("(%s | std.number.%s)" % (to_nickel(ast), c))
+                want.append(show_ref(x) if pred(x) else "ERR Blame")
+    outs = it.eval_many(exprs, singles=[i for i, w in enumerate(want) if w.startswith("ERR")])
+    for e, w, o in zip(exprs, want, outs):
+        o = norm_impl(o or "<none>")
+        ck.case(key=e, nontrivial=True)
+        ck.hist("contract_cases", w.split(" ")[0])
+        if o != w:
+            ck.violation("std-contract:" + e.split("std.number.")[1].rstrip(")"), "`%s` gives `%s`, documentation says `%s`" % (e, o, w),
+                         {"kind": "pinned", "nickel": e, "impl": o, "expected": w})
+
+
 def run_pinned(ck, it):
     pd = pow_doc_cases()
     exprs = [p[0] for p in PINNED + pd]
@@ -1622,6 +1652,7 @@ def run(ck):
         replay_case(ck, it, exe_model, c)
     run_pinned(ck, it)
     run_doc_examples(ck, it)
+    run_contracts(ck, it, rng.fork(), ck.tier)
     run_numeric(ck, it, exe_model, [("special", a) for a in SPECIAL], "special")
     # 2. the grid
     run_numeric(ck, it, exe_model, gen_grid(rng.fork(), ck.tier), "grid")
@@ -1659,9 +1690,9 @@ def replay_case(ck, it, exe_model, obj):
     if kind == "numeric":
         run_numeric(ck, it, exe_model, [("replay", tupleize(obj["ast"]))], "replay")
     elif kind == "pinned":
-        outs = it.eval_many([obj["nickel"]], singles=[0])
+        outs = [norm_impl(o or "<none>") for o in it.eval_many([obj["nickel"]], singles=[0])]
         ck.case(key=obj["nickel"])
-        if outs[0] != obj["expected"]:
+        if outs[0] != obj["expected"] and not (obj["expected"] == "ERR" and outs[0].startswith("ERR Blame")):
             ck.violation(obj.get("key", "pinned"), "`%s` gives `%s`, the property demands `%s`" % (obj["nickel"], outs[0], obj["expected"]), obj)
     elif kind == "xequality":
         outs = it.eval_many(["(%s == %s)" % (obj["a"], obj["b"])], singles=[0])
